@@ -92,44 +92,37 @@ Theorem C16_orders_are_the_48_orientations :
 Proof. split; [apply orders_are_ornts|exact order_ornt_in]. Qed.
 Print Assumptions C16_orders_are_the_48_orientations.
 
-(* ---- file position.  FULL STATEMENT: after load (eager, or lazy followed by any number of
-   complete passes) from a file object at position p the position is p.
-   Proved: eager load, TCK and TRK (position and bytes unchanged).
-   Lazy load: the bytes are unchanged and complete passes never move the position, BUT load
-   itself leaves it after the first streamline record (TRK) / first buffer (TCK) whenever the
-   file holds a streamline: LazyTractogram.from_data_func peeks with next(data_func()) and
-   drops the suspended generator, so _read's final seek is never reached (finding S-C16b). *)
-Theorem C16_position_restored_partial :
-  (forall b iters f r f', tck_session b false iters f = Ok (r, f') -> fpos f' = fpos f /\ fbytes f' = fbytes f)
-  /\ (forall o iters f r f', trk_session o false iters f = Ok (r, f') -> fpos f' = fpos f /\ fbytes f' = fbytes f)
-  /\ (forall b f n r f', tck_session b true n f = Ok (r, f') ->
-        fbytes f' = fbytes f /\ forall m r2 f2, tck_session b true m f = Ok (r2, f2) -> fpos f2 = fpos f')
-  /\ (forall o f n r f', trk_session o true n f = Ok (r, f') ->
-        fbytes f' = fbytes f /\ forall m r2 f2, trk_session o true m f = Ok (r2, f2) -> fpos f2 = fpos f').
-Proof.
-  split; [exact tck_session_eager|]. split; [exact trk_session_eager|].
-  split; [exact tck_session_lazy_stable|exact trk_session_lazy_stable].
-Qed.
-Print Assumptions C16_position_restored_partial.
+(* ---- file position: after load from a file object at ANY position - eager, or lazy followed by
+   ANY sequence of passes over the streamlines, each run to exhaustion or abandoned after k items
+   (the generator dropped; LazyTractogram.from_data_func does this once inside load) - the
+   position is what it was and the bytes are unchanged.  (True since the repair of S-C16b,
+   commit c36353e5: the restoring seek is in a `finally` clause of both _read generators.) *)
+Theorem C16_position_restored :
+  (forall b lazy passes f r f', tck_session b lazy passes f = Ok (r, f') ->
+     fpos f' = fpos f /\ fbytes f' = fbytes f)
+  /\ (forall o lazy passes f r f', trk_session o lazy passes f = Ok (r, f') ->
+     fpos f' = fpos f /\ fbytes f' = fbytes f).
+Proof. split; [exact tck_session_restores|exact trk_session_restores]. Qed.
+Print Assumptions C16_position_restored.
 
-Definition one_tck : list (list triple) := [[(1065353216, 0, 3212836864)]].
-Definition one_trk : list trk_stream := [mkStream [[1065353216; 0; 3212836864]] []].
+Definition one_tck : list (list triple) := [[(1065353216, 0, 3212836864)]; [(7, 8, 9); (1, 2, 3)]].
+Definition one_trk : list trk_stream :=
+  [mkStream [[1065353216; 0; 3212836864]] []; mkStream [[7; 8; 9]; [1; 2; 3]] []].
 Definition user0 : trk_user :=
   mkUser [1; 1; 1] [1065353216; 1065353216; 1065353216] [0; 0; 0]
          [1065353216; 0; 0; 0; 0; 1065353216; 0; 0; 0; 0; 1065353216; 0; 0; 0; 0; 1065353216] [82; 65; 83] 0 0 0.
 
-Theorem C16_position_lazy_refuted :
-  (exists bytes r f', Forall wf_stream one_tck /\ tck_save 0 [] one_tck = Ok bytes
-     /\ tck_session 4194304 true 2 (mkF 0 bytes) = Ok (r, f') /\ fpos f' = zlen bytes /\ fpos f' <> 0)
-  /\ (exists bytes r f', trk_save offs0 (mkF 0 []) user0 [] [] one_trk = Ok bytes
-     /\ trk_session offs0 true 2 (mkF 0 bytes) = Ok (r, f') /\ fpos f' = 1016 /\ fpos f' <> 0).
+(* the sessions do succeed on real files, with abandoned passes returning the first items *)
+Example C16_position_nonvacuous :
+  (exists bytes f', tck_save 0 [] one_tck = Ok bytes
+     /\ tck_session 4194304 true [PAbandon 1; PComplete; PAbandon 2] (mkF 5 bytes)
+        = Ok ([firstn 1 one_tck; firstn 1 one_tck; one_tck; one_tck], f') /\ fpos f' = 5)
+  /\ (exists bytes f', trk_save offs0 (mkF 0 []) user0 [] [] one_trk = Ok bytes
+     /\ trk_session offs0 true [PAbandon 1; PComplete] (mkF 0 bytes)
+        = Ok ([firstn 1 one_trk; firstn 1 one_trk; one_trk], f') /\ fpos f' = 0).
 Proof.
-  split.
-  - eexists; eexists; eexists. split; [|split; [vm_compute; reflexivity|split; [vm_compute; reflexivity|split; [vm_compute; reflexivity|vm_compute; discriminate]]]].
-    repeat constructor; try discriminate; cbn; lia.
-  - eexists; eexists; eexists. split; [vm_compute; reflexivity|split; [vm_compute; reflexivity|split; [vm_compute; reflexivity|vm_compute; discriminate]]].
+  split; eexists; eexists; (split; [vm_compute; reflexivity|split; vm_compute; reflexivity]).
 Qed.
-Print Assumptions C16_position_lazy_refuted.
 
 (* ---- non-vacuity: concrete non-trivial instances meet the hypotheses *)
 Example C16_tck_nonvacuous :
